@@ -110,6 +110,16 @@ Theorem C06_structured_merge_is_global : forall (V : Type) (zero : V) (dec : lis
 Proof. exact structured_merge_is_global. Qed.
 Print Assumptions C06_structured_merge_is_global.
 
+(* the decomposition is recovered from the piece extents for every listing order of the pieces (one axis): sorted distinct
+   begins / ends give the piece sizes, and a piece's position is the index of its begin value *)
+Theorem C06_axis_decomposition_from_extents : forall (b : Z) (sizes : list Z) (ps : list nat),
+  Forall (fun s => (0 < s)%Z) sizes ->
+  (forall p, In p ps <-> p < length sizes) ->
+  map2 (fun e b' => (e - b')%Z) (unique_sorted (map (zend b sizes) ps)) (unique_sorted (map (zbegin b sizes) ps)) = sizes
+  /\ forall p, p < length sizes -> index_of (zbegin b sizes p) (unique_sorted (map (zbegin b sizes) ps)) = p.
+Proof. exact axis_decomposition_from_extents. Qed.
+Print Assumptions C06_axis_decomposition_from_extents.
+
 (* finding F-C06b: the numeric type of the merged array — pinned: always float64; repaired: that of the pieces *)
 Theorem C06_smerge_dtype : (forall d, smerge_dtype_fixed d = d) /\ smerge_dtype_pinned I32 <> I32.
 Proof. split; [reflexivity|discriminate]. Qed.
